@@ -110,6 +110,15 @@ def gen_cases(tier):
                     add("bech32-decode", "over-90-chars", [s], ("reject",))
                 else:
                     add("bech32-decode", "roundtrip-" + nm, [s], ("bech32dec", "(%s HRP = %s)" % (nm, HRP), b))
+    # ---- base58check payloads that start with zero bytes: each leading zero byte is one leading '1' of the string, so the decoded payload is as
+    #      long as the string (size estimates from the string length, 0.733 bytes per character, do not hold)
+    for nz in (1, 2, 5, 17, 18, 19, 20, 21, 25, 32, 33, 64, 100):
+        for tail in (b"", b"\x01", filler(0, 20)):
+            b = b"\x00" * nz + tail
+            s58 = R.b58check_encode(b)
+            add("base58chk-encode", "leading-zeros", [hx(b)], ("str", s58))
+            if R.classify(s58)[0] == "string":
+                add("base58chk-decode", "leading-zeros", [s58], ("data", b))
     # ---- strings and integers as arguments of the generic transforms
     for s in ("abc", "hello", "Zz", "TapLeaf", "x"):
         sb = s.encode()
